@@ -1,10 +1,12 @@
 import TfPwaV.Model.LS
+import TfPwaV.Gen.KinF
 /-! Line-protocol driver: one op per input line, one answer line per op. -/
 open TfPwaV
 
 def dispatch (ws : List String) : String :=
   match ws with
   | "C13" :: rest => (LS.handle rest).getD "bad-op"
+  | "C11" :: rest => (KinF.handle rest).getD "bad-op"
   | _ => "bad-op"
 
 partial def loop (h : IO.FS.Stream) (out : IO.FS.Stream) : IO Unit := do
